@@ -1,1 +1,352 @@
-/-! Property theorems for C10 (stub: none yet). -/
+/-
+Property C10 - "Every call to an exported object gets exactly one correctly addressed reply."
+
+  Every incoming method call receives at most one reply, addressed to the caller and carrying
+  the call's serial: exactly one if the call expects a reply, and none when a call flagged as
+  expecting no reply is dispatched to its implementation.  The implementation bound to the
+  addressed object path, interface and member runs exactly once with the decoded arguments (and
+  the caller's unique name when it asks for it) if and only if that path is exported, the
+  member exists on that interface and the argument signature matches; otherwise the reply is
+  UnknownObject, UnknownMethod or InvalidArgs and no user code runs.  A returned value, or the
+  eventual result of a returned Deferred, is encoded under the declared return signature, and a
+  raised exception becomes an error reply named by its dbusErrorName or
+  org.txdbus.PythonException.<Class> (org.txdbus.InvalidErrorName if that is not a valid DBus
+  error name) with the exception text as message.
+
+Code model : Obj/Dispatch.lean   (handleMethodCallMessage, executeMethod, the decorated-method
+                                  cache, send_reply / send_error, Deferred resolution; after
+                                  repair C10-01)
+Spec       : Obj/DispatchSpec.lean (verdict of a call, binding order, naming rule)
+Tables     : Gen/Dispatch.lean   (built-in pairs, lookup-error names and formats, prefixes)
+Lemmas     : Proofs/Obj/Dispatch{Lookup,Call,History,Main}.lean
+
+Every theorem quantifies over ALL parameters `env` (codec / validator behaviour), ALL exports
+(declarations; `NamedIfaces`: interface names are non-empty), ALL histories `ops` of calls and
+Deferred resolutions (any length, any interleaving, any behaviour of user code) and ALL
+positions `k` in the history.  `run env ex ops` is the code model's trace; `eventsOf k` selects
+the events of call number `k` (the operation at position `k`).
+-/
+import TxdbusModel.Proofs.Obj.DispatchMain
+
+namespace Txdbus.Obj
+
+open Dispatch DispatchSpec DispatchProofs
+
+variable {V : Type}
+
+/-! ## 1. Number of replies -/
+
+/-- Every call receives at most one reply, whatever happens later in the history (also for the
+code before repair C10-01: no hypothesis on `env`). -/
+theorem at_most_one_reply (env : Env V) (ex : Exports) (hwf : NamedIfaces ex) (ops : List (Op V))
+    (k : Nat) :
+    (replies (eventsOf k (run env ex ops).2)).length ≤ 1 := by
+  rw [eventsOf_run]
+  cases hk : ops[k]? with
+  | none => rw [callEvents_not_call _ _ _ _ (by simp [hk])]; simp [replies]
+  | some op =>
+    cases op with
+    | resolve j r => rw [callEvents_not_call _ _ _ _ (by simp [hk])]; simp [replies]
+    | call c b =>
+      rw [replies_callEvents env ex hwf ops k c b hk]
+      rcases immediate_or_later env ops k c b (verdict ex c) with h | h
+      · rw [h]; simpa [replies] using (callReplies_replyish env k c b _).replies_le
+      · rw [h]; simpa [replies] using (laterEvents_replyish env ops k c b _).replies_le
+
+/-- A call that expects a reply receives exactly one - unless its implementation returned a
+Deferred that never fires in the history, in which case it has received none (yet).
+(`TextTotal env`: the repaired `send_error`.) -/
+theorem exactly_one_if_expected (env : Env V) (ht : TextTotal env) (ex : Exports) (hwf : NamedIfaces ex)
+    (ops : List (Op V)) (k : Nat) (c : Call V) (b : Nat → Outcome V)
+    (hk : ops[k]? = some (.call c b)) (he : c.expectReply = true) :
+    ((∃ f m, verdict ex c = .run f m ∧ resultOf ops k (b f.id) = none) →
+        replies (eventsOf k (run env ex ops).2) = []) ∧
+    ((¬ ∃ f m, verdict ex c = .run f m ∧ resultOf ops k (b f.id) = none) →
+        (replies (eventsOf k (run env ex ops).2)).length = 1) := by
+  rw [eventsOf_run]
+  constructor
+  · rintro ⟨f, m, hv, hr⟩
+    rw [replies_run env ex hwf ops k c b hk f m hv he, hr]
+  · intro hno
+    rw [replies_callEvents env ex hwf ops k c b hk]
+    cases hp : callPending k c b (verdict ex c) with
+    | none =>
+      have h1 := callReplies_one env ht k c b _ he hp
+      simp [laterEvents, hp, replies]
+      simpa [replies] using h1.replies_length
+    | some p =>
+      obtain ⟨h0, _, f, m, hv, hb, hpm⟩ := callReplies_of_pending env k c b _ p hp
+      rw [h0]
+      simp only [laterEvents, hp]
+      cases hf : firstResolve k (List.drop (k + 1) ops) with
+      | none =>
+        exfalso
+        exact hno ⟨f, m, hv, by simp [resultOf, hb, hf]⟩
+      | some res =>
+        simpa [replies] using (fire_one env ht p res).replies_length
+
+/-- A call flagged as expecting no reply that is dispatched to its implementation (user code was
+invoked for it) receives no reply, now or when a returned Deferred fires. -/
+theorem none_if_no_reply_and_dispatched (env : Env V) (ex : Exports) (hwf : NamedIfaces ex)
+    (ops : List (Op V)) (k : Nat) (c : Call V) (b : Nat → Outcome V)
+    (hk : ops[k]? = some (.call c b)) (he : c.expectReply = false)
+    (hd : invocations (eventsOf k (run env ex ops).2) ≠ []) :
+    replies (eventsOf k (run env ex ops).2) = [] := by
+  rw [eventsOf_run] at hd ⊢
+  rw [invocations_callEvents env ex hwf ops k c b hk] at hd
+  rw [replies_callEvents env ex hwf ops k c b hk]
+  cases hv : verdict ex c with
+  | run f m =>
+    obtain ⟨h1, h2⟩ := callReplies_noreply_run env k c b f m he
+    simp [h1, laterEvents, h2, replies]
+  | builtin x => simp [hv, expectedInvocations] at hd
+  | unknownObject => simp [hv, expectedInvocations] at hd
+  | unknownMethod => simp [hv, expectedInvocations] at hd
+  | invalidArgs m => simp [hv, expectedInvocations] at hd
+  | unbound m => simp [hv, expectedInvocations] at hd
+
+/-! ## 2. Addressing -/
+
+/-- Every reply to a call carries the call's serial as `reply_serial` and the call's sender as
+destination - including replies sent later when a Deferred fires. -/
+theorem reply_addressing (env : Env V) (ex : Exports) (hwf : NamedIfaces ex) (ops : List (Op V))
+    (k : Nat) (c : Call V) (b : Nat → Outcome V) (hk : ops[k]? = some (.call c b)) :
+    ∀ m ∈ replies (eventsOf k (run env ex ops).2), AddressedTo c m := by
+  rw [eventsOf_run, replies_callEvents env ex hwf ops k c b hk]
+  intro m hm
+  rw [List.mem_append] at hm
+  rcases hm with hm | hm
+  · exact (callReplies_replyish env k c b _).addressed m hm
+  · exact (laterEvents_replyish env ops k c b _).addressed m hm
+
+/-! ## 3. Who runs -/
+
+/-- The invocations of user code for a call are exactly: the bound implementation, once, with the
+decoded arguments and the sender iff it asks for it, when the call is `Runnable` (path exported,
+member on the addressed or first matching interface, signatures equal, something bound; not a
+call the handler answers itself); nothing otherwise.  No later operation adds an invocation. -/
+theorem runs_iff (env : Env V) (ex : Exports) (hwf : NamedIfaces ex) (ops : List (Op V))
+    (k : Nat) (c : Call V) (b : Nat → Outcome V) (hk : ops[k]? = some (.call c b)) :
+    (∀ f m, Runnable ex c f m →
+        invocations (eventsOf k (run env ex ops).2) = [expectedInvocation c f]) ∧
+    ((¬ ∃ f m, Runnable ex c f m) → invocations (eventsOf k (run env ex ops).2) = []) ∧
+    (invocations (eventsOf k (run env ex ops).2) ≠ [] ↔ ∃ f m, Runnable ex c f m) := by
+  rw [eventsOf_run, invocations_callEvents env ex hwf ops k c b hk]
+  refine ⟨?_, ?_, ?_⟩
+  · intro f m hr
+    rw [(verdict_run_iff ex c f m).mpr hr]
+    rfl
+  · intro hno
+    cases hv : verdict ex c with
+    | run f m => exact absurd ⟨f, m, (verdict_run_iff ex c f m).mp hv⟩ hno
+    | builtin x => rfl
+    | unknownObject => rfl
+    | unknownMethod => rfl
+    | invalidArgs m => rfl
+    | unbound m => rfl
+  · constructor
+    · intro h
+      cases hv : verdict ex c with
+      | run f m => exact ⟨f, m, (verdict_run_iff ex c f m).mp hv⟩
+      | builtin x => simp [hv, expectedInvocations] at h
+      | unknownObject => simp [hv, expectedInvocations] at h
+      | unknownMethod => simp [hv, expectedInvocations] at h
+      | invalidArgs m => simp [hv, expectedInvocations] at h
+      | unbound m => simp [hv, expectedInvocations] at h
+    · rintro ⟨f, m, hr⟩
+      rw [(verdict_run_iff ex c f m).mpr hr]
+      simp [expectedInvocations]
+
+/-- When the lookup fails (and the call is not one the handler answers itself) the call produces
+exactly one event: the error reply of the first failing step - UnknownObject: the path is not
+exported; UnknownMethod: the member is not on the addressed (or any) interface; InvalidArgs: the
+signature differs from the declared one - with the code's text, and no user code runs. -/
+theorem lookup_failure_reply (env : Env V) (ex : Exports) (hwf : NamedIfaces ex) (ops : List (Op V))
+    (k : Nat) (c : Call V) (b : Nat → Outcome V) (hk : ops[k]? = some (.call c b))
+    (hh : handledByHandler ex c = false) :
+    (exported ex c.path = none →
+      eventsOf k (run env ex ops).2 =
+        [.sent (.err unknownObject.1 c.serial c.sender (pyFormat unknownObject.2 [c.path]))]) ∧
+    (∀ o, exported ex c.path = some o → addressed o c = none →
+      eventsOf k (run env ex ops).2 =
+        [.sent (.err unknownMethod.1 c.serial c.sender
+          (pyFormat unknownMethod.2 [c.member, orElse c.sig [], orElse c.iface "(null)".toList]))]) ∧
+    (∀ o i m, exported ex c.path = some o → addressed o c = some (i, m) → c.sig.getD [] ≠ m.sigIn →
+      eventsOf k (run env ex ops).2 =
+        [.sent (.err invalidArgs.1 c.serial c.sender
+          (pyFormat invalidArgs.2 [c.member, orElse c.sig [], m.sigIn]))]) := by
+  rw [eventsOf_run, callEvents_eq env ex hwf ops k c b hk]
+  refine ⟨?_, ?_, ?_⟩
+  · intro ho; rw [verdict_unknownObject_of ex c hh ho]; rfl
+  · intro o ho ha; rw [verdict_unknownMethod_of ex c o hh ho ha]; rfl
+  · intro o i m ho ha hs; rw [verdict_invalidArgs_of ex c o i m hh ho ha hs]; rfl
+
+/-! ## 4. Results -/
+
+/-- A returned value - now, or as the eventual result of the returned Deferred - that encodes
+under the declared return signature is sent as a method return under that signature. -/
+theorem result_encoding (env : Env V) (ex : Exports) (hwf : NamedIfaces ex) (ops : List (Op V))
+    (k : Nat) (c : Call V) (b : Nat → Outcome V) (hk : ops[k]? = some (.call c b))
+    (he : c.expectReply = true) (f : Func) (m : Method) (hv : verdict ex c = .run f m)
+    (r : Ret V) (hres : resultOf ops k (b f.id) = some (.value r))
+    (henc : env.encErr m.sigOut (replyBody env.ofSeq m.nret r) = none) :
+    replies (eventsOf k (run env ex ops).2) =
+      [.ret c.serial c.sender (some m.sigOut) (.vals (replyBody env.ofSeq m.nret r))] := by
+  rw [eventsOf_run, replies_run env ex hwf ops k c b hk f m hv he, hres]
+  simp only [fire, sendReply_eq, pendingOf, henc]
+  simp [replies]
+
+/-- A value that does not encode under the declared signature becomes exactly one error reply,
+named after the encoder's exception by the same rule as any other exception. -/
+theorem unencodable_value_one_error (env : Env V) (ht : TextTotal env) (ex : Exports)
+    (hwf : NamedIfaces ex) (ops : List (Op V))
+    (k : Nat) (c : Call V) (b : Nat → Outcome V) (hk : ops[k]? = some (.call c b))
+    (he : c.expectReply = true) (f : Func) (m : Method) (hv : verdict ex c = .run f m)
+    (r : Ret V) (hres : resultOf ops k (b f.id) = some (.value r))
+    (e : Exc) (henc : env.encErr m.sigOut (replyBody env.ofSeq m.nret r) = some e) :
+    ∃ t, replies (eventsOf k (run env ex ops).2) =
+      [.err (errorName env.validErr e) c.serial c.sender t] := by
+  rw [eventsOf_run, replies_run env ex hwf ops k c b hk f m hv he, hres]
+  simp only [fire, sendReply_eq, pendingOf, henc, sendError_eq]
+  have := ht (errorText env.validErr e)
+  cases h : env.textFix (errorText env.validErr e) with
+  | none => simp [h] at this
+  | some t => exact ⟨t, by simp [replies]⟩
+
+/-- A raised exception (or a failed Deferred) becomes exactly one error reply named
+`dbusErrorName`, else `org.txdbus.PythonException.<Class>`, or `org.txdbus.InvalidErrorName` when
+that is not a valid error name (`errorName`), whose message is the exception text (`errorText`:
+preceded by a notice when the name was rejected) as `send_error` can send it; for the repaired
+code and a name that is valid the message is the exception text itself whenever it contains no
+NUL. -/
+theorem error_reply_name (env : Env V) (ht : TextTotal env) (ex : Exports)
+    (hwf : NamedIfaces ex) (ops : List (Op V))
+    (k : Nat) (c : Call V) (b : Nat → Outcome V) (hk : ops[k]? = some (.call c b))
+    (he : c.expectReply = true) (f : Func) (m : Method) (hv : verdict ex c = .run f m)
+    (e : Exc) (hres : resultOf ops k (b f.id) = some (.fail e)) :
+    ∃ t, env.textFix (errorText env.validErr e) = some t ∧
+      replies (eventsOf k (run env ex ops).2) =
+        [.err (errorName env.validErr e) c.serial c.sender t] ∧
+      (env.textFix = fixRepaired → errorName env.validErr e ≠ invalidErrorName →
+        '\x00' ∉ e.text → t = e.text) := by
+  rw [eventsOf_run, replies_run env ex hwf ops k c b hk f m hv he, hres]
+  simp only [fire, pendingOf, sendError_eq]
+  have := ht (errorText env.validErr e)
+  cases h : env.textFix (errorText env.validErr e) with
+  | none => simp [h] at this
+  | some t =>
+    refine ⟨t, rfl, by simp [replies], ?_⟩
+    intro hfix hname hnul
+    rw [hfix] at h
+    unfold errorName at hname
+    unfold errorText at h
+    cases hn : e.errName with
+    | none =>
+      simp only [hn] at hname h
+      by_cases hval : env.validErr (pyExceptionPrefix ++ e.cls) = true
+      · simp only [hval, if_true, fixRepaired, escapeNul_id e.text hnul] at h
+        injection h with h; exact h.symm
+      · simp [hval] at hname
+    | some n =>
+      simp only [hn] at hname h
+      by_cases hval : env.validErr n = true
+      · simp only [hval, if_true, fixRepaired, escapeNul_id e.text hnul] at h
+        injection h with h; exact h.symm
+      · simp [hval] at hname
+
+/-! ## 5. The tables the model reads are the ones the statement names -/
+
+/-- The generated tables (translated from txdbus/objects.py on every run) have the shape and the
+values the model and the statement assume: editing them in the source breaks this lemma. -/
+theorem table_shape :
+    Gen.Dispatch.builtinPairs =
+      [("org.freedesktop.DBus.Peer", "Ping"),
+       ("org.freedesktop.DBus.Introspectable", "Introspect"),
+       ("org.freedesktop.DBus.ObjectManager", "GetManagedObjects")] ∧
+    Gen.Dispatch.lookupErrors.map (fun e => (e.1, e.2.2)) =
+      [("org.freedesktop.DBus.Error.UnknownObject", ["msg.path"]),
+       ("org.freedesktop.DBus.Error.UnknownMethod",
+          ["msg.member", "msg.signature or ''", "msg.interface or '(null)'"]),
+       ("org.freedesktop.DBus.Error.InvalidArgs",
+          ["msg.member", "msg.signature or ''", "m.sigIn or ''"])] ∧
+    Gen.Dispatch.pyExceptionPrefix = "org.txdbus.PythonException." ∧
+    Gen.Dispatch.invalidErrorName = "org.txdbus.InvalidErrorName" ∧
+    Gen.Dispatch.attrPrefix = "dbus_" ∧
+    Gen.Dispatch.callerKeyword = "dbusCaller" := by
+  decide
+
+/-! ## 6. Witness: the code before repair C10-01 (F29) -/
+
+namespace Example
+
+def iface : Iface :=
+  { name := "org.a".toList,
+    methods := [("one".toList, { name := "one".toList, sigIn := [], sigOut := ['s'], nret := 1 })] }
+
+def cls : Class :=
+  { ifaces := some [iface],
+    attrs := [("dbus_one".toList, { id := 1, deco := none, wantsCaller := true })] }
+
+def exports : Exports := [("/a".toList, { classes := [cls] })]
+
+def call : Call Nat :=
+  { path := "/a".toList, iface := some "org.a".toList, member := "one".toList, sig := none,
+    sender := some ":1.7".toList, serial := 5, expectReply := true, body := [] }
+
+/-- the user method raises `Exception('a\0b')` -/
+def raisesNul : Nat → Outcome Nat :=
+  fun _ => .raise { cls := "Exception".toList, errName := none, text := ['a', '\x00', 'b'] }
+
+def envWith (fix : Str → Option Str) : Env Nat :=
+  { encErr := fun _ _ => none, ofSeq := fun _ => 0, validErr := fun _ => true, textFix := fix }
+
+end Example
+
+/-- Before repair C10-01 (`fixPrefix`: the error text is sent as it is and `ErrorMessage(...)`
+raises on NUL): the call expects a reply, its implementation runs and raises `Exception('a\0b')`,
+and NO reply is sent - "exactly one if the call expects a reply" fails.  This is the replay of
+F29 on the model; corpus/C10/f29-nul-in-exception-text.json is the same input for the code. -/
+theorem prefix_model_violates_exactly_one :
+    Example.call.expectReply = true ∧
+    invocations (eventsOf 0 (run (Example.envWith fixPrefix) Example.exports
+      [.call Example.call Example.raisesNul]).2) = [(1, [], some (some ":1.7".toList))] ∧
+    replies (eventsOf 0 (run (Example.envWith fixPrefix) Example.exports
+      [.call Example.call Example.raisesNul]).2) = [] ∧
+    replies (eventsOf 0 (run (Example.envWith fixRepaired) Example.exports
+      [.call Example.call Example.raisesNul]).2) =
+      [.err "org.txdbus.PythonException.Exception".toList 5 (some ":1.7".toList) "a\\x00b".toList] := by
+  decide
+
+/-! ## 7. The hypotheses are satisfiable -/
+
+example : NamedIfaces Example.exports := by unfold NamedIfaces; decide
+
+example : TextTotal (Example.envWith fixRepaired) := fun _ => rfl
+
+example : ¬ TextTotal (Example.envWith fixPrefix) := fun h => by
+  have := h ['\x00']
+  simp [Example.envWith, fixPrefix] at this
+
+example : ∃ f m, Runnable Example.exports Example.call f m :=
+  ⟨{ id := 1, deco := none, wantsCaller := true },
+   { name := "one".toList, sigIn := [], sigOut := ['s'], nret := 1 },
+   (verdict_run_iff _ _ _ _).mp (by decide)⟩
+
+example : verdict Example.exports { Example.call with path := "/zz".toList } = .unknownObject := by decide
+example : verdict Example.exports { Example.call with member := "two".toList } = .unknownMethod := by decide
+example : verdict Example.exports { Example.call with sig := some ['i'] } =
+    .invalidArgs { name := "one".toList, sigIn := [], sigOut := ['s'], nret := 1 } := by decide
+
+end Txdbus.Obj
+
+#print axioms Txdbus.Obj.at_most_one_reply
+#print axioms Txdbus.Obj.exactly_one_if_expected
+#print axioms Txdbus.Obj.none_if_no_reply_and_dispatched
+#print axioms Txdbus.Obj.reply_addressing
+#print axioms Txdbus.Obj.runs_iff
+#print axioms Txdbus.Obj.lookup_failure_reply
+#print axioms Txdbus.Obj.result_encoding
+#print axioms Txdbus.Obj.unencodable_value_one_error
+#print axioms Txdbus.Obj.error_reply_name
+#print axioms Txdbus.Obj.table_shape
+#print axioms Txdbus.Obj.prefix_model_violates_exactly_one
